@@ -77,6 +77,54 @@ type tableAppend struct {
 
 // tableAppends lists the appends whose result is stored into a commands/index table field.
 func tableAppends(fn *ssa.Function) []tableAppend {
+	out := tableAppendsDirect(fn)
+	// one level of inlining: an unexported helper of the package that files into the tables of a
+	// batch object it is handed (`queueRedirected(nr, mode, ii, cm)`) files at its call site, with
+	// its parameters replaced by the arguments. The helper must file on every path (whichever arm).
+	for _, cs := range Sites(fn, func(in ssa.Instruction) bool { _, ok := in.(*ssa.Call); return ok }) {
+		call := cs.Instr.(*ssa.Call)
+		h := call.Call.StaticCallee()
+		if h == nil || h.Blocks == nil || h.Pkg != fn.Pkg || isExportedName(h.Name()) || h == fn {
+			continue
+		}
+		inner := tableAppendsDirect(h)
+		if len(inner) == 0 {
+			continue
+		}
+		arg := func(v ssa.Value) ssa.Value {
+			for k, prm := range h.Params {
+				if v == ssa.Value(prm) && k < len(call.Call.Args) {
+					return call.Call.Args[k]
+				}
+			}
+			return v
+		}
+		always, _ := MustPassFromEntry(h, func(in ssa.Instruction) bool {
+			for _, a := range inner {
+				if _, isCmd := tableSibling[a.field]; isCmd && a.site.Instr == in {
+					return true
+				}
+			}
+			return false
+		})
+		if !always {
+			continue
+		}
+		for _, a := range inner {
+			if _, isp := a.base.(*ssa.Parameter); !isp {
+				continue
+			}
+			var elems []ssa.Value
+			for _, e := range a.elems {
+				elems = append(elems, arg(e))
+			}
+			out = append(out, tableAppend{cs, a.field, arg(a.base), elems})
+		}
+	}
+	return out
+}
+
+func tableAppendsDirect(fn *ssa.Function) []tableAppend {
 	var out []tableAppend
 	for _, s := range CallSites(fn, "builtin.append") {
 		c := s.Instr.(*ssa.Call)
